@@ -383,6 +383,9 @@ func init() {
 	// ---------------------------------------------------------------- C01
 	register(&Prop{ID: "C01",
 		Gen: func(r *RNG, tier string, run int) *Trace {
+			if run%211 == 5 {
+				return genSAGrow(r, r.pickStr("GSAP", "GSAP", "OSAP"))
+			}
 			if run%401 == 7 {
 				return genBigWrite(r) // first Write of 1 MiB and more
 			}
@@ -600,6 +603,9 @@ func init() {
 	// ---------------------------------------------------------------- C12
 	register(&Prop{ID: "C12",
 		Gen: func(r *RNG, tier string, run int) *Trace {
+			if run%211 == 5 {
+				return genSAGrow(r, "GSAP")
+			}
 			if run%5 == 3 {
 				return genGSAPSmallBlocks(r)
 			}
@@ -655,6 +661,12 @@ func init() {
 	// ---------------------------------------------------------------- C16 (clause 2; clause 1 is the config world)
 	register(&Prop{ID: "C16",
 		Gen: func(r *RNG, tier string, run int) *Trace {
+			if run%401 == 7 {
+				return genBigWrite(r) // buffers of whole MiB filled to the brim and parsed to the end
+			}
+			if run%211 == 5 {
+				return genSAGrow(r, r.pickStr("GSAP", "GSAP", "OSAP"))
+			}
 			if run%20 == 7 {
 				// suffix sorter stress (see C01): a wrong suffix array mostly shows
 				// as a panic in suffix.LCP or a Sort that does not return
@@ -927,7 +939,7 @@ func genLongMatch(r *RNG, types []string) *Trace {
 	B := r.Pick(0, 1<<16, 1<<16, 1<<16+1, 1<<17, L+5, 2*L, 4096)
 	var in []byte
 	dist := L // distance of the long repeat
-	layout := r.Intn(6)
+	layout := r.Intn(7)
 	switch layout {
 	case 0: // adjacent repeat
 		in = append(append(append(in, pre...), X...), X...)
@@ -964,6 +976,13 @@ func genLongMatch(r *RNG, types []string) *Trace {
 			in = append(in, c)
 		}
 		dist = 1
+	case 5: // a long periodic stretch: one self-overlapping match with an offset that is no power of two
+		unit := genInput(r, r.Pick(3, 5, 7, 600, 1000, 65537, 70000), "iid256")
+		in = append(in, pre...)
+		for len(in) < len(pre)+2*L {
+			in = append(in, unit...)
+		}
+		dist = len(unit)
 	default: // X twice behind a head that repeats itself
 		head := genInput(r, r.Pick(12, 40, 200), r.pickStr("copyback", "periodic", "iid2"))
 		in = append(append(append(in, head...), X...), X...)
@@ -1025,9 +1044,13 @@ func genBigWrite(r *RNG) *Trace {
 			t.Ops = append(t.Ops, genReadAtOp(r, bs))
 		}
 	}
-	t.Ops = append(t.Ops, Op{K: "Write", N: first})
+	t.Ops = append(t.Ops, Op{K: r.pickStr("Write", "Write", "ReadFrom"), N: first})
 	probe(3)
-	for i := r.Intn(4); i > 0; i-- {
+	k := r.Intn(4)
+	if r.Chance(0.4) {
+		k = bs/(64<<10) + 2 // to the very end of the filled buffer (blocks of 64 or 128 KiB)
+	}
+	for i := k; i > 0; i-- {
 		t.Ops = append(t.Ops, Op{K: "Parse", Re: true})
 	}
 	probe(2)
@@ -1069,6 +1092,31 @@ func genGSAPSmallBlocks(r *RNG) *Trace {
 				op.F = lz.NoTrailingLiterals
 			}
 			t.Ops = append(t.Ops, op)
+		}
+	}
+	return t
+}
+
+// genSAGrow: a suffix-array parser with a buffer of several hundred KiB that
+// is filled in two or three steps without Shrink or Reset: 64 KiB and more are
+// parsed and still buffered when more data arrives and is sorted in.
+func genSAGrow(r *RNG, typ string) *Trace {
+	a := r.Range(66000, 100000)
+	b := r.Range(2, 5) * (16 << 10)
+	if typ == "OSAP" {
+		a = r.Range(66000, 70000)
+	}
+	bs := a + 2*b + r.Intn(1<<16)
+	spec := ParserSpec{Type: typ, BufferSize: bs, WindowSize: r.Pick(bs, bs, 1<<16, 0), BlockSize: r.Pick(16<<10, 32<<10, 64<<10), MinMatchLen: r.Pick(0, 2, 3), ShrinkSize: r.Pick(0, 1<<16)}
+	t := &Trace{World: "parser", P: &spec, Input: genInput(r, a+2*b, r.pickStr("iid256", "copyback256", "iid16", "bigrecords"))}
+	t.Note = "sa grow"
+	for _, k := range []int{a, b, b} {
+		t.Ops = append(t.Ops, Op{K: r.pickStr("Write", "ReadFrom"), N: k})
+		for i := k/spec.BlockSize + 2; i > 0; i-- {
+			t.Ops = append(t.Ops, Op{K: "Parse", Re: true})
+		}
+		if r.Chance(0.2) {
+			break
 		}
 	}
 	return t
